@@ -1,6 +1,8 @@
 package main
 
 import (
+	"github.com/bolkedebruin/rdpgw/cmd/rdpgw/security"
+	"context"
 	"bytes"
 	"fmt"
 	"net/http"
@@ -49,10 +51,15 @@ type TunnelPlan struct {
 	//  drain       read until the server ends the stream
 	//  recv:<n>    read n data packets
 	//  idle        wait until everything else is blocked
+	//  settle      the same, used between two steps of a compound ending
+	//  hostsay:<b> the remote desktop host writes <b> now
+	//  partial:<n> the first n bytes of a 110-byte DATA packet
 	Chunks      [][]byte // what the backend of this tunnel writes after accepting
 	BackendEnds bool     // backend closes after its chunks
 	SplitLegacy bool     // legacy: open IN and OUT from two concurrent threads
 	InFirst     bool     // legacy: send the IN request before the OUT request
+	Cookie      string   // RealCookie scenarios: the minted token (filled by RunConc)
+	TokenHost   string   // RealCookie scenarios: host the token is minted for ("" = Host)
 }
 
 // TunnelObs is the per-tunnel observation at the end of an execution.
@@ -77,6 +84,7 @@ type ConcScenario struct {
 	Gw         GwCfg
 	NegIdle    bool
 	Segmented  bool // client connections deliver one write per read
+	RealCookie bool // cookies are tokens minted by security.GeneratePAAToken and checked by security.CheckPAACookie (userinfo round trip to the scripted IdP is a scheduling point)
 	PostRead   bool // scheduling point after every gateway read on a client connection
 	RoundRobin bool // default schedule advances the clients in lockstep (cyclic candidate order)
 	Deviation  bool // bound deviations from the default schedule instead of preemptions (multi-tunnel scenarios)
@@ -129,6 +137,36 @@ func concGwCfg(plans []TunnelPlan) GwCfg {
 	return GwCfg{TokenAuth: true, CookieCheck: TableCookie, HostSelection: "roundrobin", Hosts: hosts, VerifyIP: true}
 }
 
+func planCookie(p TunnelPlan) string {
+	if p.Cookie != "" {
+		return p.Cookie
+	}
+	return "ok|" + p.Host + "|" + p.IP + "|" + p.User
+}
+
+// mintCookies fills the plans' cookies with real tokens (outside the scheduler: minting does no I/O).
+func mintCookies(sc *ConcScenario) {
+	InstallIdP().SchedPoint = true
+	security.SigningKey = []byte(c02Key)
+	plans := append([]TunnelPlan{}, sc.Plans...)
+	for i := range plans {
+		p := &plans[i]
+		id := NewIdentity(p.User, p.IP, p.IP+":40000")
+		id.SetAttribute(identity.AttrAccessToken, "at-"+p.User)
+		ctx := context.WithValue(context.Background(), identity.CTXKey, id)
+		host := p.TokenHost
+		if host == "" {
+			host = p.Host
+		}
+		tok, err := security.GeneratePAAToken(ctx, p.User, host)
+		if err != nil {
+			infra("minting a token: %v", err)
+		}
+		p.Cookie = tok
+	}
+	sc.Plans = plans
+}
+
 // runClient plays one plan in the calling thread.
 func runClient(w *World, h http.Handler, p TunnelPlan, o *TunnelObs) {
 	id := NewIdentity("", p.IP, p.IP+":40000")
@@ -175,7 +213,7 @@ func runClient(w *World, h http.Handler, p TunnelPlan, o *TunnelObs) {
 		resp uint16
 	}{
 		{"hs", tsgu.Handshake(1, 0, 0, tsgu.ExtAuthPAA), tsgu.TypeHandshakeResp},
-		{"tc", tsgu.TunnelCreate("ok|"+p.Host+"|"+p.IP+"|"+p.User, true), tsgu.TypeTunnelResp},
+		{"tc", tsgu.TunnelCreate(planCookie(p), true), tsgu.TypeTunnelResp},
 		{"ta", tsgu.TunnelAuth("pc"), tsgu.TypeTunnelAuthResp},
 		{"cc", tsgu.ChannelCreate(hostOf(p.Host), portOf(p.Host)), tsgu.TypeChannelResp},
 	}
@@ -257,6 +295,23 @@ func runClient(w *World, h http.Handler, p TunnelPlan, o *TunnelObs) {
 				}
 			}
 		case op == "idle":
+			vsched.WaitIdle()
+		case strings.HasPrefix(op, "hostsay:"):
+			// the remote desktop host of this tunnel writes now (the client thread acts for it, so the
+			// write is ordered after the script steps before it)
+			if o.BackendIdx >= 0 && o.BackendIdx < len(w.Backends) {
+				w.Backends[o.BackendIdx].Conn.Write([]byte(op[8:]))
+			}
+		case strings.HasPrefix(op, "partial:"):
+			// the first n bytes of a 110-byte DATA packet, as one transport unit; the rest never comes
+			n, _ := strconv.Atoi(op[8:])
+			pkt := tsgu.Data([]byte(strings.Repeat("p", 100)))
+			if n > len(pkt) {
+				n = len(pkt)
+			}
+			c.SendSegment(pkt[:n])
+		case op == "settle":
+			// let the gateway react to what happened so far before the next step
 			vsched.WaitIdle()
 		}
 	}
@@ -355,6 +410,10 @@ func collectClient(c *TunnelClient, o *TunnelObs) {
 // RunConc executes the scenario under the given schedule prefix.
 func RunConc(sc ConcScenario, prefix []int, logOn bool) *ConcResult {
 	res := &ConcResult{}
+	curScenario = sc.Name
+	if sc.RealCookie {
+		mintCookies(&sc)
+	}
 	max := sc.MaxSteps
 	if max == 0 {
 		max = 5000
@@ -371,6 +430,9 @@ func RunConc(sc ConcScenario, prefix []int, logOn bool) *ConcResult {
 		}
 		if sc.NegIdle {
 			cfg.IdleTimeout = -5
+		}
+		if sc.RealCookie {
+			cfg.CookieCheck = nil
 		}
 		gw := NewGateway(cfg)
 		h := http.Handler(http.HandlerFunc(gw.HandleGatewayProtocol))
